@@ -196,6 +196,18 @@ func init() {
 				return o.Probes["saveload"] > 0
 			},
 		},
+		// a harness-held executor: at save time writes are still in the write buffer and scheduled
+		// drains have not run; the save has to bring the policy up to date itself (views that lag
+		// behind pending maintenance, and refresh, are left out as in C13's / C17's queued engines)
+		&seqEngine{
+			profile: Profile{Prop: "C19", Executor: []string{"queued"}, NoRef: true, MinOps: 3, MaxOps: 60,
+				OpW: w(defaultOpW, map[string]int{"set": 34, "advance": 8, "runexec": 3, "cleanup": 1,
+					"hottest": 0, "coldest": 0, "setmax": 0, "getmax": 0, "wsize": 0, "esize": 0, "stats": 0})},
+			saveLoad: true,
+			nontrivial: func(o *SeqOutcome) bool {
+				return o.Probes["saveload"] > 0
+			},
+		},
 		&seqEngine{
 			profile:  Profile{Prop: "C19", Executor: []string{"sync"}, ForceExp: true, ExtremeClk: true, MinOps: 3, MaxOps: 40, OpW: w(defaultOpW, map[string]int{"set": 30, "setexpires": 10, "advance": 8})},
 			saveLoad: true,
